@@ -763,8 +763,10 @@ where
                 .get_direct::<Azks>(&crate::append_only_zks::DEFAULT_AZKS_KEY)
                 .await?
         } else {
+            // the epoch record as committed: the one a publish has pending in its open transaction is
+            // not an epoch yet (and never becomes one if the commit fails)
             storage
-                .get::<Azks>(&crate::append_only_zks::DEFAULT_AZKS_KEY)
+                .get_committed::<Azks>(&crate::append_only_zks::DEFAULT_AZKS_KEY)
                 .await?
         };
         match got {
